@@ -220,6 +220,9 @@ class Expr:
                     return f"(negb {e})"
                 bail(node, "string order")
             if t == "bool":
+                if self.ty(r) == "bool" and isinstance(op, (ast.Eq, ast.NotEq)):
+                    e = f"(Bool.eqb {self.tr(l)} {self.tr(r)})"
+                    return e if isinstance(op, ast.Eq) else f"(negb {e})"
                 bail(node, "bool compare")
             if t != "Z" or self.ty(r) != "Z":
                 bail(node, f"comparison of {t} with {self.ty(r)}")
